@@ -1226,6 +1226,8 @@ func runScriptModel(r *hx.Result, cfg hx.Config, rng *rand.Rand) {
 		seq, seqLen, conc = 12, 150, 40
 	}
 	runPoolModel(r, cfg, rng, drv)
+	runMemoryProbe(r, cfg)
+	runExistingGlobalFinding(r, cfg, drv)
 	kills := 1
 	if cfg.Tier == "thorough" || cfg.Search {
 		kills = 6
